@@ -537,7 +537,10 @@ func (w *World) specText(text string) string {
 		if !sf.opaque {
 			fmt.Fprintf(&b, "(assert (forall (%s) (! (= %s %s) :pattern (%s))))\n", ps, app, sf.body, app)
 		}
-		if sf.rsort == SStr || sf.rsort == SSL {
+		// well-formedness of the result is only asserted for opaque (uninterpreted) functions:
+		// there it is a consistent assumption; for defined functions it would be an unproved
+		// claim that can contradict the definition on ill-formed arguments
+		if sf.opaque && (sf.rsort == SStr || sf.rsort == SSL) {
 			var wfs []string
 			for i, p := range sf.params {
 				if t := wfOf(p, sf.psorts[i], nil); t != "true" {
